@@ -22,6 +22,7 @@ RULE = ('(1) exhaustive: every primitive type x parameter combinations at the ty
         'items, element out of bounds, non-string key). Oracle: reference predicate on the model type; '
         'accepted values must read back equal up to int->float and tuple->list; refusal must be '
         'ValidationError. distinct = distinct (type, parameter shape, embedding, value class, verdict) cells')
+RULE += ' ' + 'Neighbours also include non-list sequences and non-dict mappings that hold valid items, tuples of several lengths and every other Python kind in list / map / struct / union positions.'
 ASSUMPTIONS = ['unspecified and not judged: bool where a number is expected, bytearray/memoryview for Bytes, '
                'subclass instance in a plain-struct position, instance of an enumerated-subtype root']
 REQUIRED_COUNTERS = ['assignments', 'judged_in', 'judged_out']
